@@ -1,4 +1,4 @@
 From PV Require Import Base.Prelude Generated.T_lexer Model.Lexer.
 Require Extraction.
 Require Import ExtrOcamlBasic.
-Extraction "../ocaml/build/ExC07.ml" io_types model_lex tok_code tok_value token_count run_matcher first_match symbols token_matchers.
+Extraction "../ocaml/build/ExC07.ml" io_types model_lex tok_code tok_value tok_str_value token_count run_matcher first_match symbols token_matchers.
